@@ -1314,8 +1314,9 @@ class ConsInterp(Interp):
             ok, why = self.regenerated(r, st)
             if ok:
                 eng.discharged['regenerated'] += 1
-                if len(eng.samples) < 12:
-                    eng.samples.append({'function': self.fd.qual, 'resource': r.desc, 'discharged_as': why})
+                smp = {'function': self.fd.qual, 'resource': r.desc, 'discharged_as': why}
+                if len(eng.samples) < 16 and smp not in eng.samples:
+                    eng.samples.append(smp)
                 self.check_extent(r, st)
                 continue
             if r.kind == 'spacer':
